@@ -7,7 +7,7 @@ HOOKS = {
     "guard": "NANO_VERIF",
     "enable": "every verification build of libnano and of the harnesses passes -DNANO_VERIF (bin/check, GUARD); no source "
               "hook exists so far: the scheduler binds to the code by link-time interposition",
-    "baseline_off_cmd": "cmake -G Ninja -S /repo -B /repo/_build -DCMAKE_BUILD_TYPE=RelWithDebInfo && "
+    "baseline_off_cmd": "cmake -G Ninja -S /repo -B /repo/_build -DCMAKE_BUILD_TYPE=RelWithDebInfo -DCMAKE_CXX_FLAGS=-Wno-error && "
                         "cmake --build /repo/_build && ctest --test-dir /repo/_build -j8 --timeout 900",
     "source_commits": [],
     "add_only": True,
@@ -17,11 +17,12 @@ ENGINES = [
     {"name": "E1 sched", "path": "engine/sched.cpp", "serves_properties": ["C17", "C09", "C13", "C18"],
      "kind_free_text": "link-time interposed serialising scheduler over pthread mutex/cond/create/join and libstdc++ "
                        "future futex waits + preemption-bounded stateless DFS with happens-before fingerprint pruning"},
-    {"name": "E2 mc", "path": "engine/mc.h", "serves_properties": ["C19", "C11", "C08", "C13", "C15", "C02"],
+    {"name": "E2 mc", "path": "engine/mc.h", "serves_properties": ["C19", "C11", "C08", "C13", "C02"],
      "kind_free_text": "choice-point DFS with deviation bound and explicit-state BFS over operation histories of the "
                        "real objects, compared step by step with a reference model"},
-    {"name": "E3 lattice", "path": "engine/verif.h", "serves_properties": ["C01", "C02", "C03", "C04", "C05", "C06", "C07",
-                                                                          "C09", "C10", "C12", "C14", "C16", "C20"],
+    {"name": "E3 lattice", "path": "engine/verif.h", "serves_properties": ["C01", "C02", "C03", "C04", "C05", "C06", "C07", "C08",
+                                                                          "C09", "C10", "C11", "C12", "C14", "C15", "C16", "C18",
+                                                                          "C19", "C20"],
      "kind_free_text": "bounded-exhaustive enumeration of a finite input/configuration lattice (mixed-radix case "
                        "numbers, 16 shards), independent oracle on every case"},
 ]
